@@ -21,7 +21,7 @@ func init() { register(c19{}) }
 
 func (c19) ID() string     { return "C19" }
 func (c19) Level() string  { return "exploration" }
-func (c19) QuickRuns() int { return 40000 }
+func (c19) QuickRuns() int { return 240000 }
 func (c19) Rule() string {
 	return "traceroute.RunTraceroute and the HTTP handler with boundary parameters: TTL bounds from {-1,0,1,2,29,30,254..258,300,511,65536+k} (min and max independently), ports {-1,0,1,65535,65536,70000}, protocol and TCP-method strings (valid, case variants, unknown, empty), target literals (IPv4, IPv6, bracketed, with and without port), every protocol; either the call fails, or the wire shows exactly the requested TTL range towards exactly the requested address/port with the requested probe kind; non-trivial = at least one parameter is at or beyond a boundary; distinct = distinct parameter tuples"
 }
@@ -281,7 +281,7 @@ func init() { register(c17{}) }
 
 func (c17) ID() string     { return "C17" }
 func (c17) Level() string  { return "exploration" }
-func (c17) QuickRuns() int { return 24000 }
+func (c17) QuickRuns() int { return 120000 }
 func (c17) Rule() string {
 	return "RunTraceroute and the HTTP handler with skip-private-hops over simulated topologies whose routers answer from every private block edge (10/8, 172.16/12, 192.168/16, fc00::/7 first/last addresses), the adjacent public addresses, and IPv4-mapped IPv6 sources (which only the real parser path can produce), with and without concurrent reverse-DNS enrichment (names, empty, errors, slow); the JSON output is compared hop by hop with the ledger: private responder => TTL only; public responder => address, reachability and names untouched; hop count unchanged; non-trivial = at least one private responder was read; distinct = distinct shapes. Modest claim: documents are those the real pipeline produces, not all documents"
 }
